@@ -212,7 +212,10 @@ func (s *Staking) processDoubleSignV5(config *params.YouParams, currentDB *state
 		if affected > 0 {
 			result.confirmedEvidences = append(result.confirmedEvidences, evidence)
 		} else {
-			result.deletedEvidences = append(result.deletedEvidences, evidence)
+			// doPenalize has already expelled the validator and set it offline even though nothing could be taken.
+			// Importers replay only what is in SlashData, so the evidence must be recorded there as well,
+			// otherwise the builder's block is rejected by every other node.
+			result.confirmedEvidences = append(result.confirmedEvidences, evidence)
 		}
 
 	case doubleSign.Round > parentHeight:
